@@ -365,8 +365,30 @@ func (g *Gen) one() *transaction.Transaction {
 		}
 		ms := [][2]any{{"put", int64(2)}, {"del", int64(1)}, {"putMany", int64(3)}, {"notify", int64(1)}}
 		m, kv := ms[g.R.Intn(len(ms))], live[g.R.Intn(len(live))]
-		if g.R.Intn(10) < 7 { // concentrate on one method so that a fee gets re-set while whitelisted
+		switch x := g.R.Intn(10); {
+		case x < 5: // concentrate on one method so that a fee gets re-set while whitelisted
 			m, kv = ms[0], live[0]
+		case x < 8 && len(live) > 1:
+			// several contracts whose order by hash and order by method offset disagree: the contract with the
+			// lower hash gets its method with the highest offset, the other one its method with the lowest offset
+			lo, hi := live[0], live[1+g.R.Intn(len(live)-1)]
+			if lo.Compare(hi) > 0 {
+				lo, hi = hi, lo
+			}
+			kv = lo
+			if g.R.Intn(2) == 0 {
+				kv = hi
+			}
+			best := -1
+			for _, c := range ms {
+				md := g.BC.GetContractState(kv).Manifest.ABI.GetMethod(c[0].(string), int(c[1].(int64)))
+				if md == nil {
+					continue
+				}
+				if best < 0 || (kv == lo && md.Offset > best) || (kv == hi && md.Offset < best) {
+					best, m = md.Offset, c
+				}
+			}
 		}
 		if g.R.Intn(5) == 0 {
 			tx = g.tx(com, g.hash(nativenames.Policy), "removeWhitelistFeeContract", kv, m[0], m[1])
